@@ -254,9 +254,15 @@ def record_attacks(vh, out_dir):
     """spec -> code, adversarial: the attack schedules TLC found on weakened variants of the specification
     (generated/attacks.json, see tools_attacks.py) are executed on the real code."""
     p = os.path.join(VERIF, 'generated', 'attacks.json')
-    if not os.path.exists(p):
+    atk = json.load(open(p)) if os.path.exists(p) else []
+    # hand-written regression schedules of repaired findings (the failing input of each fix: commit, kept so that the defect is
+    # reported again if it ever returns)
+    reg = []
+    for f in sorted(glob.glob(os.path.join(VERIF, 'regressions', '*.json'))):
+        reg += [dict(weaken='regression ' + r['id'], property=r['property'], invariant=r['id'], schedule=r['schedule']) for r in json.load(open(f))]
+    atk = atk + reg
+    if not atk:
         return [], {'attacks': 0, 'note': 'generated/attacks.json missing'}
-    atk = json.load(open(p))
     bf = os.path.join(out_dir, 'attacks.ndjson')
     with open(bf, 'w') as o:
         for a in atk:
@@ -265,7 +271,7 @@ def record_attacks(vh, out_dir):
     r = sh([vh, 'script', '-in', bf, '-runs', '0', '-out', tf], timeout=1800)
     if r.returncode != 0:
         raise Infra('script driver failed on the attack schedules: %s' % r.stdout[-1500:])
-    meta = {'attacks': len(atk), 'weakenings': sorted({a['weaken'] for a in atk}),
+    meta = {'attacks': len(atk), 'regression_schedules': len(reg), 'weakenings': sorted({a['weaken'] for a in atk}),
             'targets': sorted({'%s/%s' % (a['property'], a['invariant']) for a in atk})}
     return [(tf, bf, len(atk))], meta
 
